@@ -10,6 +10,9 @@ import (
 	"time"
 )
 
+// loadSeconds: time spent loading, type-checking and building SSA for the repository (shared by all properties of one invocation).
+var loadSeconds float64
+
 // Ob is one obligation: a rule instance attached to a construct.
 type Ob struct {
 	Key        string      `json:"key"`
@@ -140,7 +143,19 @@ func (r *Report) Count(name string, n int) { r.Counts[name] = n }
 
 // Finish prints the obligations, writes the evidence file and returns the exit code.
 func (r *Report) Finish() int {
-	wall := time.Since(r.Start).Seconds()
+	wall := time.Since(r.Start).Seconds() + loadSeconds
+	if r.Assume == nil {
+		r.Assume = []string{}
+	}
+	if r.NotDec == nil {
+		r.NotDec = []string{}
+	}
+	if r.Trusted == nil {
+		r.Trusted = []string{}
+	}
+	if r.Notes == nil {
+		r.Notes = []string{}
+	}
 	sort.SliceStable(r.Obs, func(i, j int) bool { return r.Obs[i].Key < r.Obs[j].Key })
 	viol, knownN, disch, nontriv := 0, 0, 0, 0
 	var out []string
